@@ -525,6 +525,31 @@ class World:
                     raise self.viol("C18.6 replace_with-effect", "C18.6:replace_with-position", "the replacement is not stored at the receiver's position")
         return "ok"
 
+    def op_stale(self, op: dict[str, Any]) -> str:
+        """Operations on a stale handle (receiver of an earlier replace) that must not disturb the attached world."""
+        n = self.handles.get(op["h"])
+        if n is None or not self.is_retired(n):
+            raise SkipOp("no stale handle")
+        self.before()
+        try:
+            if op["what"] == "detach":
+                ret = n.detach()
+            elif op["what"] == "detach_self":
+                ret = n.detach_self()
+            else:
+                ret = n.duplicate(as_detached_clone=True)
+                if any(not x.detached for x in walk(ret)):
+                    raise self.viol("C18.6 duplicate-effect", "C18.6:duplicate:stale-clone", "a detached clone of a stale node is attached")
+                ret = True
+        except Violation:
+            raise
+        except Exception as e:  # noqa: BLE001
+            return self.expect_ok("stale-" + op["what"], e)
+        if self.on("C18") and ret is not True:
+            raise self.viol("C18.6 detach-effect", "C18.6:stale-detach-ret", f"{op['what']}() on an already detached (stale) node returned {ret}")
+        self.stats.probes["stale_receiver_op"] += 1
+        return "ok"
+
     def op_duplicate(self, op: dict[str, Any]) -> str:
         n = self.node_at(op["n"])
         self.before()
@@ -940,7 +965,7 @@ class Gen:
             if children_of(o):
                 return None
         self.exclude = self.tree_of(o)
-        return {"op": "replace", "n": ref, "ch": self.gen_changes(o), "out": self.out(), "keep_stale": r.random() < 0.15}
+        return {"op": "replace", "n": ref, "ch": self.gen_changes(o), "out": self.out(), "keep_stale": r.random() < 0.3}
 
     def g_replace_with(self) -> dict[str, Any] | None:
         r = self.r("rw")
@@ -968,6 +993,13 @@ class Gen:
                 if "ref" in new:
                     return None
         return {"op": "replace_with", "n": ref, "new": new, "out": self.out(), "keep_stale": r.random() < 0.1}
+
+    def g_stale(self) -> dict[str, Any] | None:
+        r = self.r("stale")
+        names = [h for h, o in self.w.handles.items() if self.w.is_retired(o)]
+        if not names:
+            return None
+        return {"op": "stale", "h": r.choice(names), "what": r.choice(["detach", "detach_self", "clone"])}
 
     def g_duplicate(self) -> dict[str, Any] | None:
         r = self.r("dup")
@@ -1226,6 +1258,24 @@ class Gen:
             return None
         return {"act": "replace_with", "n": {"h": h, "path": path}, "new": {"ref": {"h": h, "path": []}}, "bad": f"replace_with_own_ancestor_depth{len(path)}"}
 
+    def rj_transform_result_refused(self) -> dict[str, Any] | None:
+        """transform() of an attached subtree whose result the final replace_with refuses: wrong type for a
+        type-restricted field, or None for a required field."""
+        r = self.r("rj14")
+        ref = self.pick_ref(lambda o: (not o.detached) and o.parent is not None and o.parent_field is not None and o.parent_field.name in ("only_leaf", "req"), root_bias=0.2)
+        if ref is None:
+            return None
+        o = self.w.node_at(ref)
+        if len(walk(o)) > 8:
+            return None
+        if o.parent_field.name == "only_leaf":
+            rules = {cname(o): ["fresh", {"c": "LLeafB", "p": {"v": "w"}, "ch": {}, "o": "no"}]}
+            bad = "transform_result_wrong_type"
+        else:
+            rules = {cname(o): "remove"}
+            bad = "transform_result_none_required"
+        return {"act": "transform", "n": ref, "rules": rules, "bad": bad}
+
     def rj_transform_raises(self) -> dict[str, Any] | None:
         r = self.r("rj12")
         ref = self.pick_ref(lambda o: not o.detached, root_bias=0.7)
@@ -1284,6 +1334,7 @@ REJECT_KINDS = [
     "replace_with_none_required",
     "replace_with_attach_fails",
     "replace_with_own_ancestor",
+    "transform_result_refused",
     "transform_raises",
 ]
 
@@ -1291,7 +1342,7 @@ REJECT_KINDS = [
 def make_config(rseed: int, prop: str, tier: str, faults: bool) -> dict[str, Any]:
     rng = Rng(rseed)
     r = rng.s("config")
-    weights = {"new": 5, "twin": 1.5, "drop": 1.5, "attach": 2, "detach": 3, "replace": 4, "replace_with": 3, "duplicate": 1.5, "transform": 1.5, "transformer": 1}
+    weights = {"new": 5, "twin": 1.5, "drop": 1.5, "attach": 2, "detach": 3, "replace": 4, "replace_with": 3, "duplicate": 1.5, "transform": 1.5, "transformer": 1, "stale": 0.8}
     for k in list(weights):
         if k == "new":
             continue
